@@ -130,7 +130,28 @@ def run(model: Model, rep: Report) -> None:
     ei = model.func(PI + "PDFPageInterpreter.do_EI")
     s5 = "".join(unparse(ei.node).split())
     s5 = s5.replace("('H'inobj)", "'H'inobj")
-    r4.check("isinstance(obj,PDFStream)and'W'inobjand'H'inobj" in s5 and "self.device.begin_figure(iobjid,(0,0,1,1),MATRIX_IDENTITY)self.device.render_image(iobjid,obj)self.device.end_figure(iobjid)" in s5, site(ei), ei.qualname, "EI hands the inline image to the device inside a unit figure", why="changed")
+    r4.check("isinstance(obj,PDFStream)and" in s5 and "self.device.begin_figure(iobjid,(0,0,1,1),MATRIX_IDENTITY)self.device.render_image(iobjid,obj)self.device.end_figure(iobjid)" in s5, site(ei), ei.qualname, "EI hands the inline image to the device inside a unit figure", why="changed")
+    # the guard of EI and the reader of the image dictionary agree on the spellings of a key (Table 93: an inline image may use
+    # the abbreviated or the full key)
+    r16 = rep.rule("C18-R16", "SIBLING", "inline images: the EI guard accepts every spelling of Width / Height that LTImage reads (abbreviated and full)", 2)
+    li0 = model.func("pdfminer.layout.LTImage.__init__")
+    spell = []
+    for c in ast.walk(li0.node):
+        if isinstance(c, ast.Call) and isinstance(c.func, ast.Attribute) and c.func.attr == "get_any" and c.args and isinstance(c.args[0], ast.Tuple):
+            ks = [e.value for e in c.args[0].elts if isinstance(e, ast.Constant)]
+            if "W" in ks or "H" in ks or "Width" in ks or "Height" in ks:
+                spell.append(ks)
+    if len(spell) < 2:
+        raise AnchorMissing("LTImage.__init__: get_any reads of the image size not found")
+    guards = [n.test for n in walk_no_nested(ei.node) if isinstance(n, ast.If)]
+    if not guards:
+        raise AnchorMissing("do_EI: guard not found")
+    tested = {c.value for c in ast.walk(guards[0]) if isinstance(c, ast.Constant) and isinstance(c.value, str)}
+    for ks in spell:
+        missing = [k for k in ks if k not in tested]
+        r16.check(not missing or not (set(ks) & tested), site(ei, guards[0]), ei.qualname, f"guard of EI tests {sorted(set(ks) & tested)} of the spellings {ks}", why=f"LTImage reads the size under {ks} but the guard only lets {sorted(set(ks) & tested)} through: an inline image written with {missing} is dropped without a trace")
+        if not (set(ks) & tested):
+            r16.violation(site(ei, guards[0]), ei.qualname, unparse(guards[0])[:100], f"the guard does not test {ks} at all")
     # ---------------------------------------------------------------- R5 (shared with C15-R3)
     from .c15 import unique_name_rule
 
